@@ -50,6 +50,7 @@ func scenarioExprsW(thorough bool, wf int) []string {
 		"sort_by(@, &@)", "sort_by(a, &@)", "sort_by(a, &k)", "sort_by(b, &k)", "max_by(a, &k)", "min_by(a, &@)", "sort(a)", "reverse(a)", "map(&k, a)", "keys(@)", "values(@)", "*", "*.a",
 		"a[?k > `1`]", "a[*].k", "a[].k", "merge(@, @)", "join(',', b)", "length(a)", "a | sort_by(@, &k) | [0]", "[a, b]", "{x: a, y: b}", "abs(a)", "nosuch(a)", "a[::0]", "a[::-1]", "to_string(@)",
 		"contains(a, `1`)", "avg(a)", "sum(a)", "max(a)", "min(a)", "type(a)", "not_null(a, b)", "to_number(a)", "starts_with(a, b)", "a.b.c", "a[0]", "a[-1]", "a || b", "a && b", "!a", "a == b", "a < b", "@", "'raw'", "`1`",
+		"[`1`, 'a']", "{kind: 'fixed'}", "length([`1`, `2`])", "[`null`, @]", "a || nosuch(a)", "b[*].abs(@, @)", "contains(a, `3`)", "contains(b, 'a')", "a[?contains(@.k || `[]`, `1`)]",
 		"a[?nosuch(@)] || length(@)", "b[?nosuch(@)] || length(@)", "a && abs(a, a) || length(@)", "[?nosuch(@)]", "b || nosuch(a)", "a[?k > `1`] || nosuch(@)", "*.abs(@)", "*.k", "a[*].abs(k)", "a[?k >= `0`]", "a[?k >= `0`].t",
 		"sum(a)", "max(b)", "sort(b)", "[*].sum(@)", "a[*].to_array(k) | [*][0]", "join(',', b)",
 		"sort_by(a, &k) | sort_by(@, &t)", "sort_by(sort_by(a, &k), &t)", "a[*].sort(@)", "[sort_by(a, &k), a]", "sort_by(a, &k)[0].k",
@@ -103,6 +104,7 @@ var historyDocs = univ.Js(
 	`{"a":[{"k":2,"t":0},{"k":1,"t":1},{"k":3,"t":2}],"b":["b","a"]}`, `{"a":[3,1,2],"b":[2,1]}`, `[3,1,2]`, `[{"k":"b"},{"k":"a"}]`,
 	`{"a":{"b":{"c":1}},"b":2}`, `null`, `{"a":"x","b":"y"}`, `[{"k":1},{"k":"a"}]`,
 	`{"c":1}`, `{"d":[2],"a":[1,2],"b":[1,3]}`,
+	`{"a":[9,8,7,6,5,4,3,2,1,0],"b":["j","i","h","g","f","e","d","c","b","a"]}`,
 )
 
 func resKey(res interface{}, err error, pn *impl.Panic) string {
@@ -120,6 +122,49 @@ func resKey(res interface{}, err error, pn *impl.Panic) string {
 		return fmt.Sprintf("VALUE(go) of type %T", res)
 	}
 	return "VALUE " + model.Canon(res)
+}
+
+// updateInPlace overwrites elements of the arrays and members of the objects of a document without
+// changing lengths or identities of the containers (what a caller does when it refreshes its data).
+func updateInPlace(v interface{}) bool {
+	changed := false
+	switch x := v.(type) {
+	case []interface{}:
+		for i := range x {
+			if updateInPlace(x[i]) {
+				changed = true
+				continue
+			}
+			switch e := x[i].(type) {
+			case float64:
+				x[i] = e + 100
+				changed = true
+			case string:
+				x[i] = e + "!"
+				changed = true
+			}
+		}
+		if len(x) > 1 {
+			x[0], x[len(x)-1] = x[len(x)-1], x[0]
+			changed = true
+		}
+	case map[string]interface{}:
+		for k, e := range x {
+			if updateInPlace(e) {
+				changed = true
+				continue
+			}
+			switch ev := e.(type) {
+			case float64:
+				x[k] = ev + 100
+				changed = true
+			case string:
+				x[k] = ev + "!"
+				changed = true
+			}
+		}
+	}
+	return changed
 }
 
 func jsonDefectShallow(v interface{}) bool { return jsonDefectDepth(v, 0) }
@@ -154,6 +199,7 @@ var parserAlphabet = []string{
 	"{a: b, c: d}", "[a, b]", "f(a, &b)", "`[1, 2, {\"a\": \"\\`\"}]`", "'raw'", `'it\'s'`, `'a\'b\'c'`, "''", `"quoted\n"`, "@", "`1`", "a == 'x'",
 	"", " ", "#", "a.", "a..b", ".a", "a.b.c.d.", "a[", "[0", "a[0", "{a:", "{a: b c}", "f(a b)", "f(", "'unclosed", "\"unclosed", "`unclosed", "`{bad json`", "\"bad\\xescape\"",
 	`'it\'s`, `'a\'`, `'x'`, `'abc' == 'abc'`, `'\'`, "\"a\\\"", "`\"x\\`", "`\\``", "foo[-]", "foo[:-]", "`seeded`", "\"bad\\qescape\"", "a[?b == 'c\\'d']", "'tail",
+	"[0:5]", "a[::2]", "a[1:3] | [0:5]", "a[-1:]",
 	"1", "007", "1a", "0", "9_lives", " 1a", "aZ", "AZx", "a.Z9",
 	"`[\"a\", \"b\"]`", "{x: `[1, 2]`, y: `{\"k\": [3]}`}", "a | `[1, [2]]`[1]", "`{\"k\": {\"j\": 1}}`.k", "[`[1]`, `[1]`]",
 	"a = b", "a.b.c.d.e.f.g ? h", "a[1:2:3:4]", "@(a)", "a b", "a ]", "(a", "a)", "[-]", "a[99999999999999999999]", "!", "&", "a.'x'", "a\u0080", "\xff", "a | ", "[?a",
@@ -274,6 +320,15 @@ func workC13(c *shardCtx) {
 		}
 		if fresh() == nil {
 			c.add("uncompilable", 1)
+			// Compile rejects: then the one-shot Search must fail on every document too
+			for _, d := range historyDocs {
+				if res, err, pn := impl.SearchOnce(text, model.Copy(d)); err == nil && pn == nil {
+					c.report(harness.Violation{Kind: "wrong-value", Signature: "one-shot-differs:" + text,
+						Input:    map[string]interface{}{"expression": text, "document": d},
+						Expected: "Compile fails for this expression, so jmespath.Search(expr, d) fails as well", Observed: "one-shot Search returns " + resKey(res, nil, nil)})
+					break
+				}
+			}
 			continue
 		}
 		c.add("expressions", 1)
@@ -421,6 +476,25 @@ func workC13(c *shardCtx) {
 				}
 			}
 		}
+		// the caller updates a document in place between two searches with the same compiled expression:
+		// the second answer must be the one a fresh compile gives on the updated document
+		for di := 0; di < nd && !failed; di++ {
+			d := model.Copy(historyDocs[di])
+			jp := fresh()
+			impl.Search(jp, d)
+			if !updateInPlace(d) {
+				continue
+			}
+			want, werr, wpn := impl.Search(fresh(), model.Copy(d))
+			got, gerr, gpn := impl.Search(jp, d)
+			c.add("calls", 3)
+			if resKey(got, gerr, gpn) != resKey(want, werr, wpn) {
+				c.report(harness.Violation{Kind: "wrong-value", Signature: "stale-after-caller-update:" + text,
+					Input:    map[string]interface{}{"expression": text, "document_before": historyDocs[di], "document_after_update": d},
+					Expected: resKey(want, werr, wpn) + " (fresh compile on the updated document)", Observed: resKey(got, gerr, gpn)})
+				failed = true
+			}
+		}
 		// same document object re-used across calls (combined effect with C06)
 		shared := make([]interface{}, nd)
 		for i, d := range historyDocs {
@@ -487,6 +561,38 @@ func workC13(c *shardCtx) {
 		c.add("parser_transitions", int64(ptrans))
 		c.res.Notes["parser_alphabet"] = len(X)
 		c.sample(map[string]interface{}{"parser_history": []string{X[31], X[20], X[0]}, "oracle": "each Parse equals NewParser().Parse on AST render / error type, message, offset"})
+	}
+	// a Parser that has rejected hundreds of inputs must still parse like a fresh one
+	if c.shard == 1%c.shards {
+		p := jmespath.NewParser()
+		rounds := 12
+		if c.thorough() {
+			rounds = 60
+		}
+		for round := 0; round < rounds; round++ {
+			for xi, x := range X {
+				if strings.HasPrefix(freshKey[xi], "(") {
+					continue // only the rejected ones
+				}
+				safeParse(p, x)
+				safeParse(p, "(("+x)
+				safeParse(p, "a[?("+x)
+			}
+		}
+		for xi, x := range X {
+			for _, wrap := range []string{"%s", "((%s))", "[((%s))]"} {
+				text := strings.Replace(wrap, "%s", x, -1)
+				want := safeParse(jmespath.NewParser(), text)
+				if got := safeParse(p, text); got != want {
+					c.report(harness.Violation{Kind: "wrong-value", Signature: fmt.Sprintf("parser-history-dependent:%q", text),
+						Input:    map[string]interface{}{"expression": text, "parsed_before": fmt.Sprintf("%d rounds over every rejected expression of the alphabet (plain and inside unclosed parentheses)", rounds)},
+						Expected: want, Observed: got})
+					break
+				}
+			}
+			_ = xi
+		}
+		c.add("parser_histories", int64(rounds*len(X)*3))
 	}
 	plen := 2
 	if c.thorough() {
